@@ -21,6 +21,27 @@ func main() {
 		fmt.Fprintln(os.Stderr, "usage: verif <ID> [-tier quick|thorough] [-seed n] [-replay f]; ids:", ids)
 		os.Exit(2)
 	}
+	if os.Args[1] == "-lanes" {
+		// the lane table of every registered check (for DESIGN section 20): id lane flags children x cases per tier
+		ids := make([]string, 0, len(registry))
+		for k := range registry {
+			ids = append(ids, k)
+		}
+		sort.Strings(ids)
+		for _, id := range ids {
+			for _, l := range registry[id]().Lanes {
+				fl := "-"
+				if l.Race {
+					fl = "race"
+				}
+				if l.Asan {
+					fl = "asan"
+				}
+				fmt.Printf("%s %s %s %d %d %d %d\n", id, l.Name, fl, l.Children("quick"), l.Cases("quick"), l.Children("thorough"), l.Cases("thorough"))
+			}
+		}
+		return
+	}
 	mk, ok := registry[os.Args[1]]
 	if !ok {
 		fmt.Fprintln(os.Stderr, "unknown property", os.Args[1])
